@@ -16,13 +16,7 @@ Section SPEC.
   Definition label_value (l : labels) (k : string) : string :=
     match find (fun kv => String.eqb (fst kv) k) l with Some kv => snd kv | None => "" end.
   Definition has_label (l : labels) (k : string) : bool := existsb (fun kv => String.eqb (fst kv) k) l.
-  Definition prom_match_val (op : mop) (x v : string) : bool :=
-    match op with
-    | MEq => String.eqb v x
-    | MNeq => negb (String.eqb v x)
-    | MRe => re_full v x
-    | MNre => negb (re_full v x)
-    end.
+  Notation prom_match_val := (PromSel.prom_match_val re_full).     (* labels.Matcher.Matches, defined with the planner *)
   Definition prom_matches (ms : list matcher) (l : labels) : bool :=
     forallb (fun m => prom_match_val (m_op m) (m_val m) (label_value l (m_name m))) ms.
 
@@ -30,16 +24,19 @@ Section SPEC.
   Definition metric_series (D : Z) (s : tsrow) : bool := (D <=? t_date s)%Z && ((t_type s =? 2)%Z || (t_type s =? 0)%Z).
   Definition expected_fps (D : Z) (ms : list matcher) (series : list tsrow) : list N :=
     nodup N.eq_dec (map t_fp (filter (fun s => metric_series D s && prom_matches ms (t_labels s)) series)).
+  (* the requested range, as Prometheus means it: [hints.Start, hints.End] in milliseconds, both ends included,
+     the sample's millisecond being the floor of its nanosecond timestamp; metric-typed rows only *)
+  Definition in_range_ms (h : hints) (s : samplerow) : bool :=
+    (h_start h <=? sm_ts_ns s / 1000000)%Z && (sm_ts_ns s / 1000000 <=? h_end h)%Z.
+  Definition metric_sample (s : samplerow) : bool := (sm_type s =? 2)%Z || (sm_type s =? 0)%Z.
   Definition expected_rows (h : hints) (ms : list matcher) (db : database) : list row :=
-    raw_rows (h_start h * 1000000) (h_end h * 1000000) 2
-             (expected_fps (from_day (h_start h * 1000000)) ms (d_series db)) (d_samples db).
+    let fps := expected_fps (from_day (h_start h * 1000000)) ms (d_series db) in
+    map to_row (isort PromSem.sample_lt
+                  (filter (fun s => in_range_ms h s && metric_sample s && existsb (N.eqb (sm_fp s)) fps) (d_samples db))).
+  (* Prometheus refuses a selector whose matchers all accept the empty string; the planner has nothing to look up
+     in the label index for it *)
+  Definition selective (ms : list matcher) : bool := existsb (fun m => negb (accepts_empty re_full m)) ms.
 End SPEC.
-
-Fixpoint tbl_lookup (t : list (string * string * bool)) (v p : string) : bool :=
-  match t with
-  | [] => false
-  | (p', v', b) :: r => if String.eqb p p' && String.eqb v v' then b else tbl_lookup r v p
-  end.
 
 Definition row_eqb (a b : row) : bool := N.eqb (r_fp a) (r_fp b) && Z.eqb (r_val a) (r_val b) && Z.eqb (r_ts a) (r_ts b).
 Definition orows_eqb (a b : option (list row)) : bool :=
@@ -57,10 +54,6 @@ Record semcase := {
 Definition plain_hints (h : hints) : bool :=
   Z.eqb (h_step h) 0 || (negb (is_instant (h_func h)) && negb (is_range (h_func h) && (h_range h <? h_step h)%Z)).
 
-(* why the SQL may legitimately (= recorded findings) differ from the Prometheus meaning *)
-Definition absent_label_case (re_full : string -> string -> bool) (ms : list matcher) (db : database) : bool :=
-  existsb (fun m => prom_match_val re_full (m_op m) (m_val m) "" &&
-                    existsb (fun s => negb (has_label (t_labels s) (m_name m))) (d_series db)) ms.
 (* ---- processHints judged on the rows: what the engine sees at its evaluation times ----
    The engine (LookbackDelta 0 in prometheusQueryRangeRouter.go = the 5 min default) asks an instant selector
    with hints.Start = first evaluation time - 5 min and a range selector with hints.Start = first evaluation
@@ -101,8 +94,9 @@ Definition hints_verdict (h : hints) (raw impl : list row) : Z :=
 (* verdict codes:
    0 ok;  1 the parse does not render back to the text;  2 the interpreter has no value for the query;
    3 model tree and implementation text mean different row lists;  4 rows differ from the Prometheus
-   meaning although no recorded cause applies;  5 .. explained by: absent label accepted by a matcher;
-   7 .. more than 63 matchers (64-bit shift);  8 no matcher at all;  9 .. 12 see hints_verdict *)
+   meaning although no recorded cause applies;  5 (profile selectors only) .. explained by: absent label accepted by a
+   selector;  7 .. more than 63 matchers (64-bit shift);  8 no matcher rejects the empty string (not a PromQL selector);
+   9 .. 12 see hints_verdict *)
 Definition sem_verdict (c : semcase) : Z :=
   let search := tbl_lookup (se_search c) in
   let full := tbl_lookup (se_full c) in
@@ -112,23 +106,20 @@ Definition sem_verdict (c : semcase) : Z :=
   | Some t =>
     if negb (String.eqb t (se_text c)) then 1 else
     let impl_rows := eval_prom search (se_impl c) (se_db c) in
-    let model_rows := eval_prom search (fst (querier_transpile (se_cluster c) "qryn" h (se_ms c))) (se_db c) in
+    let model_rows := eval_prom search (fst (querier_transpile full (se_cluster c) "qryn" h (se_ms c))) (se_db c) in
     match impl_rows with
     | None => 2
     | Some rows =>
       if plain_hints h && negb (list_eqb row_eqb rows (expected_rows full h (se_ms c) (se_db c))) then
-        match se_ms c with
-        | [] => 8
-        | _ => if Nat.ltb 63 (List.length (se_ms c)) then 7
-               else if absent_label_case full (se_ms c) (se_db c) then 5
-               else 4
-        end
+        (if negb (selective full (se_ms c)) then 8
+         else if Nat.ltb 63 (List.length (se_ms c)) then 7
+         else 4)
       else if negb (orows_eqb impl_rows model_rows) then 3
       else if plain_hints h then 0
       else
         (* the same statement without processHints (Step = 0), under the interpreter: the raw rows *)
         let h0 := {| h_start := h_start h; h_end := h_end h; h_step := 0; h_func := h_func h; h_range := h_range h |} in
-        match eval_prom search (fst (querier_transpile (se_cluster c) "qryn" h0 (se_ms c))) (se_db c) with
+        match eval_prom search (fst (querier_transpile full (se_cluster c) "qryn" h0 (se_ms c))) (se_db c) with
         | None => 2
         | Some raw => hints_verdict h raw rows
         end
@@ -154,11 +145,11 @@ Definition multi_answer (series : list tsrow) (from_ms to_ms : Z) (fps : list N)
   fetch_rows (from_day (from_ms * 1000000)) (to_ms / 86400000)%Z fps series.
 Definition multi_scase (id : Z) (cluster : bool) (h : hints) (ms : list matcher) (rows : list row) (series : list tsrow)
     (obs : list out_series) : scase :=
-  {| sc_id := id; sc_mr := snd (querier_transpile cluster "qryn" h ms); sc_rows := rows;
+  {| sc_id := id; sc_mr := snd (querier_transpile (fun _ _ => false) cluster "qryn" h ms); sc_rows := rows;
      sc_fetch := multi_answer series (h_start h) (h_end h) (fps_of rows); sc_obs := obs |}.
 
 (* the Select loop's model decision for MapResult *)
-Definition querier_mr (cluster : bool) (h : hints) (ms : list matcher) : bool := snd (querier_transpile cluster "qryn" h ms).
+Definition querier_mr (cluster : bool) (h : hints) (ms : list matcher) : bool := snd (querier_transpile (fun _ _ => false) cluster "qryn" h ms).
 
 (* ====================== profile selectors ====================== *)
 (* a stored profile series on one day: the attributes behind the pseudo labels, and its labels *)
